@@ -420,7 +420,7 @@ impl<'a> Model<'a> {
                     return Ok(());
                 }
                 let fname = match style {
-                    IncStyle::Quote | IncStyle::Angle => name.clone(),
+                    IncStyle::Quote | IncStyle::Angle | IncStyle::ViaBody(_) => name.clone(),
                     IncStyle::Macro(m) => {
                         let u = Usage { name: m.clone(), args: None, ws_before_paren: String::new() };
                         let s = self.expand_usage(&u, 0).map_err(wrap)?;
